@@ -62,7 +62,7 @@ def quad_gap(P, x, xref):
 # ----------------------------------------------------------------------------- SPD generators and specifications
 
 FORMS = ("cov", "prec", "sqrtcov", "sqrtprec")
-SHAPES = ("scalar", "vector", "diagmat", "full", "sparse")
+SHAPES = ("scalar", "vector", "diagmat", "full", "corr", "sparse")
 
 def _sym_tridiag(rs, n, lo, hi):
     """Strictly diagonally dominant symmetric tridiagonal matrix with eigenvalues in about [lo, hi]."""
@@ -108,6 +108,24 @@ def make_spec(rs, n, form, shape, scale):
         P = (Q / w) @ Q.T; P = 0.5 * (P + P.T)
         R = np.linalg.cholesky(P).T                      # upper, R^T R = P
         return R, C
+    if shape == "corr":
+        # strongly correlated: AR(1) correlation (0.8 or 0.95) between heteroscedastic components
+        rho = 0.8 if rs.uniform() < 0.5 else 0.95
+        idx = np.arange(n)
+        Rm = rho ** np.abs(idx[:, None] - idx[None, :])
+        sd = np.sqrt(scale * rs.uniform(0.5, 2.0, n))
+        C = sd[:, None] * Rm * sd[None, :]; C = 0.5 * (C + C.T)
+        if form == "cov":
+            return C.copy(), C
+        w, Q = np.linalg.eigh(C)
+        if form == "prec":
+            P = (Q / w) @ Q.T
+            return 0.5 * (P + P.T), C
+        if form == "sqrtcov":
+            Sq = (Q * np.sqrt(w)) @ Q.T
+            return 0.5 * (Sq + Sq.T), C
+        P = (Q / w) @ Q.T; P = 0.5 * (P + P.T)
+        return np.linalg.cholesky(P).T, C
     if shape == "sparse":
         if form == "cov":
             C = _sym_tridiag(rs, n, 0.5 * scale, 2.0 * scale)
@@ -200,19 +218,35 @@ def selftest():
             xw, N = wls(A, b, Ce)
             if np.max(np.abs(A.T @ np.linalg.solve(Ce, b - A @ xw))) > 1e-9:
                 bad.append("normal equations not satisfied by wls")
+    # the same algebra at extreme scales (operator scaled so that the signal-to-noise ratio stays O(1))
+    for kx, ke in ((-12, -12), (-10, 4), (8, -8), (4, 8), (-4, -12)):
+        m, n = 7, 5
+        A = rs.standard_normal((m, n)) * 10.0 ** ((ke - kx) / 2); mu = rs.standard_normal(n) * 10.0 ** (kx / 2)
+        _, Cx = make_spec(rs, n, "cov", "corr", 10.0 ** kx)
+        _, Ce = make_spec(rs, m, "cov", "corr", 0.1 * 10.0 ** ke)
+        b = A @ (mu + np.linalg.cholesky(Cx) @ rs.standard_normal(n)) + np.linalg.cholesky(Ce) @ rs.standard_normal(m)
+        m1, C1, P1 = posterior(A, b, mu, Cx, Ce)
+        m2, C2 = posterior_kalman(A, b, mu, Cx, Ce)
+        m3 = posterior_lstsq(A, b, mu, Cx, Ce)
+        d2, d3 = np.sqrt(2 * quad_gap(P1, m2, m1)), np.sqrt(2 * quad_gap(P1, m3, m1))
+        if d2 > 1e-6 or d3 > 1e-6:
+            bad.append(f"posterior mean forms disagree at scales 1e{kx}/1e{ke}: {d2:.2g}, {d3:.2g} standard deviations")
+        if np.max(np.abs(C1 - C2)) > 1e-6 * np.max(np.abs(C1)):
+            bad.append(f"posterior covariance forms disagree at scales 1e{kx}/1e{ke}")
     # every specification reproduces its covariance
     for form in FORMS:
+      for scale_ in (0.7, 3e-12, 2e8):
         for shape in SHAPES:
-            val, C = make_spec(rs, 5, form, shape, 0.7)
+            val, C = make_spec(rs, 5, form, shape, scale_)
             V = val.toarray() if sps.issparse(val) else np.asarray(val, float)
             if V.ndim == 0: V = V * np.eye(5)
             elif V.ndim == 1: V = np.diag(V)
             Cv = {"cov": lambda: V, "prec": lambda: np.linalg.inv(V), "sqrtcov": lambda: V @ V.T,
                   "sqrtprec": lambda: np.linalg.inv(V.T @ V)}[form]()
-            if not np.allclose(Cv, C, rtol=1e-9, atol=1e-12):
+            if not np.allclose(Cv, C, rtol=1e-7 if shape == "corr" else 1e-9, atol=1e-12 * scale_):
                 bad.append(f"specification {form}/{shape} does not reproduce its covariance")
             w = np.linalg.eigvalsh(C)
-            if w.min() <= 0 or w.max() / w.min() > 50:
+            if w.min() <= 0 or w.max() / w.min() > (50 if shape != "corr" else 2e4):
                 bad.append(f"specification {form}/{shape} ill conditioned ({w.min()}, {w.max()})")
             if form == "sqrtcov" and not np.allclose(V, V.T):
                 bad.append("sqrtcov specification not symmetric")
